@@ -202,7 +202,7 @@ def native_view(v, depth=0):
     if hasattr(v, "__dict__") and not isinstance(v, type) and extract.allowed_root(getattr(__import__("inspect").getmodule(type(v)), "__file__", "") or "/nonexistent"):
         if depth > 4:
             return ("obj", type(v).__name__)
-        return ("obj", type(v).__name__, {k: native_view(x, depth + 1) for k, x in sorted(vars(v).items()) if not k.endswith("logger") and not isinstance(x, _SYNC_TYPES or ())})
+        return ("obj", type(v).__name__, {k: native_view(x, depth + 1) for k, x in sorted(vars(v).items()) if not k.endswith("logger") and not k.startswith("g_") and not isinstance(x, _SYNC_TYPES or ())})
     return v
 
 
